@@ -129,3 +129,59 @@ func experiment(ka, kb int) {
 		vrt.Assert(lib.RefEq(results[t].v, Solo[k][0]), "an evaluation returns something else than when run alone: "+templates[k])
 	}
 }
+
+// ---- gensym under concurrency: temporaries of one evaluation are distinct whatever the other evaluation does
+
+var Gensym MalType
+
+func SetupGensym() {
+	Setup()
+	g, err := Env.Get(Symbol{Val: "gensym"})
+	if err != nil {
+		panic(err)
+	}
+	Gensym = g
+}
+
+// Harness_gensym: one evaluation takes three temporaries from the library's gensym while another takes
+// one or two, all interleavings within the preemption bound; the temporaries of each evaluation must be
+// pairwise distinct, as they are when it runs alone.  (gensym is applied directly: the evaluation of a
+// surrounding let form adds only scheduling points.)
+func Harness_gensym() {
+	reps := 1
+	if !vrt.Symbolic() {
+		reps = 200
+	}
+	counts := []int{3, 1 + vrt.Concrete(vrt.Choice("other", 2))}
+	for r := 0; r < reps; r++ {
+		results := make([][]MalType, 2)
+		errs := make([]error, 2)
+		done := make(chan int, 2)
+		for t := 0; t < 2; t++ {
+			t := t
+			go func() {
+				for k := 0; k < counts[t]; k++ {
+					v, err := Apply(context.Background(), Gensym, nil)
+					if err != nil {
+						errs[t] = err
+					}
+					results[t] = append(results[t], v)
+				}
+				done <- t
+			}()
+		}
+		<-done
+		<-done
+		for t := 0; t < 2; t++ {
+			vrt.Assert(errs[t] == nil, "gensym failed when two evaluations run at the same time")
+			for a := 0; a < len(results[t]); a++ {
+				_, isSym := results[t][a].(Symbol)
+				vrt.Assert(isSym, "gensym did not return a symbol")
+				for b := a + 1; b < len(results[t]); b++ {
+					vrt.Assert(!lib.RefEq(results[t][a], results[t][b]), "two gensym temporaries of one evaluation are the same symbol when another evaluation runs at the same time")
+				}
+			}
+		}
+	}
+	vrt.Reach("end")
+}
